@@ -30,6 +30,23 @@ type Env struct {
 	bound   map[string]TV
 	resolve func(name string, st *State) (TV, bool)
 	inPred  bool
+	asGoal  bool
+	// side collects well-typedness facts about the ground terms a clause reads (0 <= len <= cap,
+	// integer fields within their type); evalClause conjoins them to an assumed clause, evalGoal
+	// makes them hypotheses of the goal, so they are never asserted outside the clause's guard
+	side *[]string
+}
+
+func (e *Env) addFact(key, f string) {
+	if e.side == nil || f == "true" {
+		return
+	}
+	for _, x := range *e.side {
+		if x == f {
+			return
+		}
+	}
+	*e.side = append(*e.side, f)
 }
 
 func (fr *Frame) newEnv(st, old *State) *Env {
@@ -175,7 +192,15 @@ func (fr *Frame) evalClause(c Clause, env *Env, what string) (out string) {
 			panic(r)
 		}
 	}()
-	return env.evalBool(c.E)
+	side := []string{}
+	saved := env.side
+	env.side = &side
+	t := env.evalBool(c.E)
+	env.side = saved
+	if env.asGoal {
+		return implies(and(side...), t)
+	}
+	return and(append(side, t)...)
 }
 
 // evalGoal evaluates a clause that is to be proved: outermost universal
@@ -184,6 +209,8 @@ func (fr *Frame) evalClause(c Clause, env *Env, what string) (out string) {
 func (fr *Frame) evalGoal(c Clause, env *Env, what string) (out string) {
 	q, ok := c.E.(EQuant)
 	if !ok || !q.Forall {
+		env.asGoal = true
+		defer func() { env.asGoal = false }()
 		return fr.evalClause(c, env, what)
 	}
 	defer func() {
@@ -614,9 +641,8 @@ func (e *Env) evalSel(n ESel) TV {
 		if st.Field(i).Name() == n.Sel {
 			ft := fmt.Sprintf("(%s %s)", vc.fieldAcc(t, i), term)
 			// a field of integer type holds a value of that type
-			if isIntType(st.Field(i).Type()) && !strings.Contains(ft, "qv!") && !strings.Contains(ft, "pa!") && !vc.declared["fldfact:"+ft] {
-				vc.declared["fldfact:"+ft] = true
-				vc.assume(vc.rangeFact(ft, st.Field(i).Type()))
+			if isIntType(st.Field(i).Type()) && !strings.Contains(ft, "qv!") && !strings.Contains(ft, "pa!") {
+				e.addFact("", vc.rangeFact(ft, st.Field(i).Type()))
 			}
 			return TV{term: ft, typ: st.Field(i).Type()}
 		}
@@ -785,9 +811,8 @@ func (e *Env) evalCall(n ECall, hint types.Type) TV {
 			return TV{term: vc.strLen(a.term), typ: it}
 		case *types.Slice:
 			// every slice value of a well-typed state satisfies 0 <= len <= cap
-			if !vc.isBV() && !strings.Contains(a.term, "qv!") && !strings.Contains(a.term, "pa!") && !vc.declared["slfact:"+a.term] {
-				vc.declared["slfact:"+a.term] = true
-				vc.assume(fmt.Sprintf("(and (<= 0 (slen_ %s)) (<= (slen_ %s) (scap %s)) (<= (scap %s) 281474976710656))", a.term, a.term, a.term, a.term))
+			if !vc.isBV() && !strings.Contains(a.term, "qv!") && !strings.Contains(a.term, "pa!") {
+				e.addFact("", fmt.Sprintf("(and (<= 0 (slen_ %s)) (<= (slen_ %s) (scap %s)) (<= (scap %s) 281474976710656))", a.term, a.term, a.term, a.term))
 			}
 			return TV{term: fmt.Sprintf("(slen_ %s)", a.term), typ: it}
 		case *types.Array:
@@ -1039,7 +1064,7 @@ func (e *Env) predCall(pd *PredDecl, args []Expr) TV {
 			if len(args) != len(pd.Params) {
 				e.fail("%s takes %d arguments", pd.Name, len(pd.Params))
 			}
-			sub := &Env{vc: vc, fr: e.fr, names: map[string]TV{}, bound: e.bound, st: e.st, old: e.old, pkg: vc.eng.pkgByPath(pd.Pkg, e.pkg)}
+			sub := &Env{vc: vc, fr: e.fr, names: map[string]TV{}, bound: e.bound, st: e.st, old: e.old, pkg: vc.eng.pkgByPath(pd.Pkg, e.pkg), side: e.side}
 			for i, a := range args {
 				pt := vc.eng.resolveType(pd.Params[i].T, sub.pkg)
 				sub.names[pd.Params[i].Name] = e.coerce(e.eval(a, pt), pt)
